@@ -9,6 +9,7 @@ type c10Def struct {
 	level  int
 	marker string
 	super  bool
+	inner  bool // the definition holds a block of its own in front of its use of Super
 }
 
 func c10Letter() string { return string([]byte{verifByte()&0x0f | 0x40}) }
@@ -36,8 +37,12 @@ func HarnessC10Chain() {
 			if ni >= verifParam("names", 4) {
 				break
 			}
-			switch verifChoice(3) {
+			switch verifChoice(4) {
 			case 0: // inherit
+			case 3: // override, with a block of its own inside, then Super
+				mk := c10Letter()
+				defs[nm] = append(defs[nm], c10Def{level: lv, marker: mk, super: true, inner: true})
+				src += "{% block " + nm + " %}" + mk + "{% block y" + itoa(lv) + nm + " %}Y{% endblock %}[{{ block.Super }}]{% endblock %}"
 			case 1:
 				mk := c10Letter()
 				defs[nm] = append(defs[nm], c10Def{level: lv, marker: mk})
@@ -79,14 +84,24 @@ func HarnessC10Chain() {
 			}
 			return out
 		}
+		if d.inner {
+			out += "Y"
+		}
 		if d.super {
 			out += "[" + resolve(nm, top, k-1, iter) + "]"
 		}
 		return out
 	}
+	// every template of the chain is compiled on its own first, and rendered only then: what one of them
+	// renders must not depend on which others of the family were compiled after it
+	tpls := make([]*Template, L+1)
 	for top := 0; top <= L; top++ {
 		tpl, err := set.FromFile("t" + itoa(top))
 		verifAssert(err == nil, "every template of the chain must compile")
+		tpls[top] = tpl
+	}
+	for top := 0; top <= L; top++ {
+		tpl := tpls[top]
 		out, err2 := tpl.Execute(ctx)
 		verifAssert(err2 == nil, "every template of the chain must execute (text outside blocks in a child is ignored, never evaluated)")
 		bpart := ""
